@@ -249,6 +249,7 @@ pub fn run(scn: &Value) -> Value {
     let wmode = util::i(&scn["wmode"]);
     let via = match s(&scn["via"]) { "router" => "router", "from" => "from", "router-from" => "router-from", _ => "direct" };
     let from_queue = via.ends_with("from");
+    if s(&scn["via"]) == "session" { return run_session(&msgs, &table, scn["gap_ms"].as_u64().unwrap_or(50)) }
 
     let flag = Arc::new(Flag(AtomicBool::new(false)));
     let waker = Waker::from(flag.clone());
@@ -320,6 +321,58 @@ pub fn run(scn: &Value) -> Value {
         "events": c.events, "finished": finished, "stalled": stalled, "polls": polls as i64,
         "forced": if !c.forced { "free".to_string() } else if c.stuck >= 0 { format!("stuck@{}", c.stuck) } else if c.cur == c.hist.len() { "ok".to_string() } else { format!("short@{}", c.cur) },
         "fires": c.fires as i64, "spurious": c.spurious as i64,
+    })
+}
+
+/// The stream served by the real `Session::manage` over a loopback socket, at a real pace: the producer pushes one message every `gap`
+/// milliseconds.  The session's deadline (OHKAMI_KEEPALIVE_TIMEOUT, read once per process) is set to 1 second for this worker process.
+fn run_session(msgs: &[String], table: &[(String, String)], gap: u64) -> Value {
+    use tokio::io::{AsyncReadExt, AsyncWriteExt};
+    std::env::set_var("OHKAMI_KEEPALIVE_TIMEOUT", "1");
+    let m2: Vec<String> = msgs.to_vec();
+    let o = Ohkami::new(("/sse".GET(move || { let m = m2.clone(); async move {
+        DataStream::new(move |mut h: ohkami::sse::handle::Stream<String>| async move { for x in m { h.send(x); tokio::time::sleep(std::time::Duration::from_millis(gap)).await } })
+    } }),));
+    let router = v::finalize(o);
+    let raw: Vec<u8> = util::block_on(async move {
+        let l = tokio::net::TcpListener::bind("127.0.0.1:0").await.unwrap();
+        let addr = l.local_addr().unwrap();
+        let (c, sv) = tokio::join!(tokio::net::TcpStream::connect(addr), l.accept());
+        let (mut c, (sv, peer)) = (c.unwrap(), sv.unwrap());
+        let server = tokio::spawn(async move { v::session(&router, sv, peer.ip()).await });
+        let _ = c.write_all(b"GET /sse HTTP/1.1\r\nHost: x\r\nAccept: text/event-stream\r\nConnection: close\r\n\r\n").await;
+        let mut out = vec![]; let mut buf = vec![0u8; 65536];
+        loop { match tokio::time::timeout(std::time::Duration::from_millis(8000), c.read(&mut buf)).await { Ok(Ok(0)) | Ok(Err(_)) | Err(_) => break, Ok(Ok(n)) => out.extend_from_slice(&buf[..n]) } }
+        let _ = tokio::time::timeout(std::time::Duration::from_millis(3000), server).await;
+        out
+    });
+    let p = util::parse_response(&raw, false);
+    let get = |n: &str| p.headers.iter().filter(|(k, _)| k.eq_ignore_ascii_case(n)).map(|(_, v)| v.clone()).collect::<Vec<_>>();
+    let (te, cl, ct) = (get("Transfer-Encoding"), get("Content-Length"), get("Content-Type"));
+    let trailing = if p.error.is_empty() { raw.len() as i64 - p.consumed as i64 } else { 0 };
+    // when the body is cut the de-chunker reports an error and no body: the events that did arrive are read from the complete chunks
+    let head_end = util::find(&raw, b"\r\n\r\n").map(|i| i + 4).unwrap_or(raw.len());
+    let sizes = chunk_sizes(&raw[head_end..]);
+    let body: Vec<u8> = if p.error.is_empty() { p.body.clone() } else {
+        let mut b = vec![]; let mut at = head_end;
+        while let Some(le) = util::find(&raw[at..], b"\r\n") {
+            let Ok(line) = std::str::from_utf8(&raw[at..at + le]) else { break };
+            let Ok(sz) = usize::from_str_radix(line.trim(), 16) else { break };
+            if sz == 0 || at + le + 2 + sz + 2 > raw.len() { break }
+            b.extend_from_slice(&raw[at + le + 2..at + le + 2 + sz]); at += le + 2 + sz + 2;
+        }
+        b };
+    let (utf8, text) = match std::str::from_utf8(&body) { Ok(t) => (true, t.to_string()), Err(_) => (false, String::new()) };
+    let toks = tokenise(&text, table);
+    let digits = sizes.iter().map(|z| format!("{:x}", z).len()).max().unwrap_or(0);
+    json!({
+        "kind": "sse", "via": "session",
+        "status": p.status as i64, "te": te.join(",").to_ascii_lowercase(), "cl": if cl.is_empty() { "none".to_string() } else { cl.join(",") },
+        "ct": ct.iter().map(|c| c.split(';').next().unwrap_or("").trim().to_ascii_lowercase()).collect::<Vec<_>>().join(","),
+        "framing": p.framing, "dechunk": err_class(&p.error), "trailing": trailing, "utf8": utf8,
+        "toks": toks, "text": util::clip(&text, 240), "concrete": msgs.iter().map(|m| util::clip(m, 80)).collect::<Vec<_>>(),
+        "nchunks": sizes.len() as i64, "maxdigits": digits as i64, "bodylen": body.len() as i64,
+        "events": [], "finished": p.error.is_empty(), "stalled": false, "polls": 0, "forced": "free", "fires": 0, "spurious": 0,
     })
 }
 
